@@ -5,7 +5,7 @@ from collections import Counter
 
 from hypothesis import strategies as st
 
-from vlib.core import SubCheck, Violation, Outcome
+from vlib.core import SubCheck, Violation, Outcome, fresh
 from vlib import tt, cli
 
 PROPERTY = "C09"
@@ -160,7 +160,7 @@ def run_lib(case):
     random.seed(case['rseed'])
     what = "Shuffle(F={}, flips={}, perm={}, clauses={})".format(case['F'], args['pf'], args['vp'], args['cp'])
     try:
-        G = Shuffle(F, polarity_flips=args['pf'], variables_permutation=args['vp'], clauses_permutation=args['cp'])
+        G = Shuffle(F, polarity_flips=fresh(args['pf']), variables_permutation=fresh(args['vp']), clauses_permutation=fresh(args['cp']))
     except ValueError:
         if invalid:
             return Outcome(labels=['invalid-rejected'], rejected=True, nontrivial=True)
